@@ -466,7 +466,7 @@ func dischargeAll(qs []*Query, c *Contracts, dir string, timeout int, cross bool
 	failed := map[string]int{}
 	budget := 600 * time.Second
 	if cross {
-		budget = 1800 * time.Second
+		budget = 3600 * time.Second
 	}
 	deadline := time.Now().Add(budget)
 	var wg sync.WaitGroup
